@@ -207,19 +207,30 @@ def _keeps_existing_settings(merged_content: str, existing_config: dict) -> bool
     return all(key in merged and merged[key] == value for key, value in existing_config.items())
 
 
-def _merge_structurally(existing_config: dict, missing_sections: dict[str, str]) -> str:
+def _merged_data(existing_config: dict, missing_sections: dict[str, str]) -> dict:
     """Merge on parsed data: existing settings first, then the missing sections."""
     data = dict(existing_config)
     for section_text in missing_sections.values():
         section = yaml.safe_load(section_text)
         if isinstance(section, dict):
             data.update({k: v for k, v in section.items() if k not in data})
-    return yaml.safe_dump(data, sort_keys=False, allow_unicode=True)
+    return data
 
 
-def as_json_text(yaml_text: str) -> str:
-    """Render configuration text as JSON: a file named *.json is read with the JSON parser."""
-    return json.dumps(yaml.safe_load(yaml_text) or {}, indent=2, ensure_ascii=False) + "\n"
+def _merge_structurally(existing_config: dict, missing_sections: dict[str, str]) -> str:
+    """Merge on parsed data and render the result as YAML text."""
+    data = _merged_data(existing_config, missing_sections)
+    text = yaml.safe_dump(data, sort_keys=False, allow_unicode=True)
+    if yaml.safe_load(text) != data:
+        # with allow_unicode PyYAML writes NEL / LS / PS unescaped and reads them back as blanks
+        text = yaml.safe_dump(data, sort_keys=False)
+    return text
+
+
+def as_json_text(config: str | dict) -> str:
+    """Render configuration (YAML text or data) as JSON: a file named *.json is read with the JSON parser."""
+    data = yaml.safe_load(config) if isinstance(config, str) else config
+    return json.dumps(data or {}, indent=2) + "\n"
 
 
 def _parse_existing_config(content: str, output: str) -> dict:
@@ -274,7 +285,7 @@ def perform_merge(
         # merge the parsed data instead so that no existing setting is lost
         merged_content = _merge_structurally(existing_config, missing_sections)
     if output_path.suffix.lower() == ".json":
-        merged_content = as_json_text(_merge_structurally(existing_config, missing_sections))
+        merged_content = as_json_text(_merged_data(existing_config, missing_sections))
     output_path.write_text(merged_content, encoding="utf-8")
 
     _report_merge_results(missing_names, output)
